@@ -26,7 +26,7 @@ ASSUMPTIONS = [
 GATES = {
     "bit0_set_and_clear": 1, "bit1_set_and_clear": 1, "bit2_set_and_clear": 1, "bit6_set_and_clear": 1,
     "bit7_set_and_clear": 1, "bits_6_and_7_together": 1, "step_kind_repeated_twice": 1, "step_kind_repeated_3x": 1,
-    "steps_monitored": 100, "cost_volume_flags_watched_during_later_steps": 50, "cause_oracle_pixels": 10000, "pixels_computable_at_sub_pixel_samples_only": 5,
+    "steps_monitored": 100, "validation_step_on_pixels_already_filled": 2, "cost_volume_flags_watched_during_later_steps": 50, "cause_oracle_pixels": 10000, "pixels_computable_at_sub_pixel_samples_only": 5,
 }
 REFINE, FILL_OCC, FILL_MIS, OCC, MIS, B11 = 8, 16, 32, 256, 512, 2048
 
@@ -325,6 +325,15 @@ def _own(case, ctx):
                         f"step {key} ({dsname}): pixel {i.tolist()} flag {int(prev[tuple(i)])} -> {int(now[tuple(i)])}; "
                         f"bits owned by the step: {own}", case, situation=f"{kind}", desc=desc)
                 if kind == "validation":
+                    # a pixel that carries a filled disparity (bit 4 / 5 of an earlier validation step) is either left alone,
+                    # flagged again, or flagged and filled again: it never ends up looking like an original valid pixel
+                    lost = ((prev & (FILL_OCC | FILL_MIS)) != 0) & ((now & (FILL_OCC | FILL_MIS | OCC | MIS)) == 0)
+                    ctx.gate("validation_step_on_pixels_already_filled", int(((prev & (FILL_OCC | FILL_MIS)) != 0).any()))
+                    if lost.any():
+                        i = np.argwhere(lost)[0]
+                        ctx.violation("filled-bit-dropped-by-a-later-validation-step",
+                                      f"step {key} ({dsname}): pixel {i.tolist()} flag {int(prev[tuple(i)])} -> {int(now[tuple(i)])}", case,
+                                      situation=str(cfg["pipeline"][key].get("interpolated_disparity")), desc=desc)
                     both = (now & OCC != 0) & (now & MIS != 0)
                     if both.any():
                         i = np.argwhere(both)[0]
